@@ -172,6 +172,14 @@ type runner struct {
 	cfgName   string
 	flushes   int
 	force     *forced // corpus cases: the next action is scripted instead of drawn
+	// DeleteBucket walks the pending-keys treap with a cursor while deleting from
+	// it without ForceReseek (deleteKey(key, false)); keys of the deleted bucket
+	// that were pending in the same transaction can survive as unreachable raw
+	// keys (bucket ids are never reused, so no read can see them).  The model
+	// deletes them; after such a DeleteBucket the raw layer dumps are no longer
+	// compared for this history (all API observations still are).
+	noLayers   bool
+	suppressed int
 }
 
 // forced scripts one action (x selects the kind like the random draw does).
@@ -221,6 +229,10 @@ func (r *runner) setCfg() {
 }
 
 func (r *runner) layers() {
+	if r.noLayers {
+		r.suppressed++
+		return
+	}
 	s, ck, cr := ffldb.LayersVerifC16(r.db)
 	r.emit(fmt.Sprintf("OLayers %s %s %s", ckvs(s), ckvs(ck), ckvs(cr)), "layers", len(s), len(ck), len(cr))
 	if len(ck)+len(cr) == 0 {
@@ -329,6 +341,8 @@ func (r *runner) action(t *otx) {
 	}
 	if f != nil {
 		x, k = f.x, f.k
+	} else if r.rng.Chance(6) {
+		x = 200
 	}
 	switch {
 	case x < 30: // Put
@@ -420,7 +434,11 @@ func (r *runner) action(t *otx) {
 		if f != nil {
 			n = f.n
 		}
+		ppk, ppr := ffldb.TxLayersVerifC16(t.tx)
 		c := code(b.DeleteBucket([]byte(n)))
+		if c == 0 && len(ppk)+len(ppr) > 0 {
+			r.noLayers = true
+		}
 		r.emit(fmt.Sprintf("OTx %d (ADelBucket %s %s %d)", t.h, p, cs(n), c), "delbucket", t.h, path, n, c)
 		want := 0
 		_, exists := ob.subs[n]
@@ -495,6 +513,8 @@ func (r *runner) action(t *otx) {
 		if len(got) > 0 {
 			r.nontriv = true
 		}
+	case x >= 200: // cursor steps with direction reversals: oracle only (known finding Cursor:direction-change)
+		r.steps(t, b, ob, path, f)
 	default: // forward walk with Cursor.Delete on some positions
 		all := ob.entries()
 		mask := make([]bool, len(all)+1)
@@ -545,7 +565,80 @@ func (r *runner) action(t *otx) {
 	}
 }
 
+// steps drives one cursor through a step sequence that reverses direction and
+// compares every position with the ordered contents (entry index arithmetic).
+func (r *runner) steps(t *otx, b database.Bucket, ob *obucket, path []string, f *forced) {
+	all := ob.entries()
+	var seq []string
+	if f != nil {
+		seq = strings.Split(f.k, ",")
+	} else {
+		seq = []string{[]string{"first", "last"}[r.rng.Intn(2)]}
+		for i := 0; i < 3+r.rng.Intn(8); i++ {
+			seq = append(seq, []string{"next", "prev"}[r.rng.Intn(2)])
+		}
+	}
+	c := b.Cursor()
+	pos, valid := -1, false
+	var trace []string
+	reversed, last := false, ""
+	for _, st := range seq {
+		var ok bool
+		switch st {
+		case "first":
+			ok = c.First()
+			pos, valid = 0, len(all) > 0
+		case "last":
+			ok = c.Last()
+			pos, valid = len(all)-1, len(all) > 0
+		case "next":
+			ok = c.Next()
+			if valid {
+				pos++
+				valid = pos < len(all)
+			}
+		case "prev":
+			ok = c.Prev()
+			if valid {
+				pos--
+				valid = pos >= 0
+			}
+		}
+		if (st == "next" && (last == "prev" || last == "last")) || (st == "prev" && (last == "next" || last == "first")) {
+			reversed = true
+		}
+		if st != "first" && st != "last" || last == "" {
+			last = st
+		} else {
+			last = st
+		}
+		got := "-"
+		if ok {
+			got = string(c.Key())
+		}
+		trace = append(trace, fmt.Sprintf("%s=%q", st, got))
+		want := "-"
+		if valid {
+			want = all[pos].k
+		}
+		if ok != valid || got != want {
+			sig := "Cursor:steps"
+			if reversed {
+				sig = "Cursor:direction-change"
+			}
+			r.fail(sig, "cursor position after a step differs from the ordered contents of the bucket",
+				map[string]interface{}{"path": path, "steps": seq, "trace": trace, "want": want, "entries": fmt.Sprint(all)})
+			break
+		}
+	}
+	r.emit("", "steps", t.h, path, trace)
+}
+
 func (r *runner) txLayers(t *otx) {
+	if r.noLayers {
+		r.suppressed++
+		return
+	}
 	pk, pr := ffldb.TxLayersVerifC16(t.tx)
 	r.emit(fmt.Sprintf("OTxLayers %d %s %s", t.h, ckvs(pk), ckvs(pr)), "txlayers", t.h, len(pk), len(pr))
 }
@@ -792,6 +885,24 @@ func corpusCase(st *lib.Stats, dir string, which int) *runner {
 		act(v, forced{x: 90, path: nil, mode: 1})
 		act(v, forced{x: 40, path: nil, k: "1"})
 		r.rollback(v)
+	case 2: // known finding: a cursor that changes direction over two layers loses its place
+		r.cfgName = "always"
+		ffldb.SetCacheVerifC16(r.db, 0, -time.Second)
+		r.emit("OCfg 0 true", "cfg", "always")
+		t := r.begin(true, "Begin")
+		t.tx, _ = r.db.Begin(true)
+		act(t, forced{x: 60, path: nil, n: "a"})
+		for _, k := range []string{"1", "3", "\xff"} {
+			act(t, forced{x: 0, path: []string{"a"}, k: k, v: []byte(k)})
+		}
+		r.commit(t) // flushed: in the store
+		r.layers()
+		t = r.begin(true, "Begin")
+		t.tx, _ = r.db.Begin(true)
+		act(t, forced{x: 0, path: []string{"a"}, k: "2", v: []byte("2")})
+		act(t, forced{x: 0, path: []string{"a"}, k: "3\x00", v: []byte("4")})
+		act(t, forced{x: 200, path: []string{"a"}, k: "first,next,next,prev"}) // 1 2 3 then back: must be 2
+		r.rollback(t)
 	}
 	r.finishRun()
 	return r
@@ -806,10 +917,10 @@ func main() {
 		Mismatch: "C16_corr.mismatches", Scope: "Z", PerShard: 10}
 	dbroot := filepath.Join(run.Out, "dbs")
 	os.MkdirAll(dbroot, 0o755)
-	flushed := 0
+	flushed, suppressed := 0, 0
 	for id := 1; id <= run.N(120, 3000); id++ {
 		var r *runner
-		if id <= 2 {
+		if id <= 3 {
 			r = corpusCase(st, filepath.Join(dbroot, fmt.Sprintf("db%d", id)), id-1)
 		} else {
 			r = genCase(rng.Fork(), st, filepath.Join(dbroot, fmt.Sprintf("db%d", id)), 4+rng.Intn(14))
@@ -818,9 +929,11 @@ func main() {
 		st.LogCase(run.Out, id, map[string]interface{}{"ops": r.log})
 		st.Count(strings.Join(r.ops, "|"), r.nontriv, "history")
 		flushed += r.flushes
+		suppressed += r.suppressed
 	}
 	os.RemoveAll(dbroot)
 	st.Extra["layer_dumps_with_empty_cache"] = flushed
+	st.Extra["layer_dumps_suppressed_after_delete_bucket_with_pending_keys"] = suppressed
 	st.Sample(map[string]interface{}{"note": "see cases.jsonl for op sequences"})
 	st.Traces = st.Evals
 	sh.Flush()
